@@ -10,6 +10,10 @@ def mirrorPairs : List (String × String) := [("MISS_LEFT", "MISS_RIGHT"), ("MIS
 def initFields : List String := ["_annotation", "_sequence", "_seqstart"]
 /-- `__copy_create__`: (field the constructor argument is stored in, attribute of `self` it is built from, how). -/
 def copyCreate : List (String × String × String) := [("_annotation", "_annotation", "copyCall"), ("_sequence", "_sequence", "copyCall"), ("_seqstart", "_seqstart", "plain")]
+/-- How `__init__` builds each attribute: frozen (frozenset/str/…), mutable (set/dict/list/deepcopy/…), param (stored as given). -/
+def fieldKinds : List (String × String × String) := [("Location", "_first", "param"), ("Location", "_last", "param"), ("Location", "_strand", "param"), ("Location", "_defect", "param"), ("Feature", "_key", "param"), ("Feature", "_locs", "frozen"), ("Feature", "_qual", "mutable"), ("Annotation", "_features", "mutable"), ("AnnotatedSequence", "_annotation", "param"), ("AnnotatedSequence", "_sequence", "param"), ("AnnotatedSequence", "_seqstart", "param")]
+/-- Properties and `get_*` methods that hand out an attribute: (class, accessor, attribute, plain | copy). -/
+def accessors : List (String × String × String × String) := [("Location", "first", "_first", "plain"), ("Location", "last", "_last", "plain"), ("Location", "strand", "_strand", "plain"), ("Location", "defect", "_defect", "plain"), ("Feature", "key", "_key", "plain"), ("Feature", "locs", "_locs", "copy"), ("Feature", "qual", "_qual", "copy"), ("Annotation", "get_features", "_features", "copy"), ("AnnotatedSequence", "sequence_start", "_seqstart", "plain"), ("AnnotatedSequence", "sequence", "_sequence", "plain"), ("AnnotatedSequence", "annotation", "_annotation", "plain")]
 /-- `NucleotideSequence.alphabet_unamb` / `alphabet_amb`. -/
 def alphabetUnamb : String := "ACGT"
 def alphabetAmb : String := "ACGTRYWSMKHBVDN"
